@@ -80,3 +80,20 @@ Proof. intros anchor size align maxa Hs Hl. exact (zst_cond_complete zst_cond an
 Theorem zst_none_generated : forall anchor size align maxa,
   (size <> 0%N \/ (maxa < align)%N) -> alloc_zst_model zst_cond anchor size align maxa = None.
 Proof. intros anchor size align maxa H. exact (zst_cond_none zst_cond anchor size align maxa zst_canonical H). Qed.
+
+(** *** Macro hygiene *)
+Lemma unsafe_metavars_check : forallb metavar_harmless unsafe_metavars = true.
+Proof. vm_compute. reflexivity. Qed.
+
+Lemma unsafe_metavars_lifted : forall e, In e unsafe_metavars -> metavar_harmless e = true.
+Proof. exact (proj1 (forallb_forall _ _) unsafe_metavars_check). Qed.
+
+(** The scan sees the exported macros, and it is not empty: [unsize!] pastes its TYPE argument (only)
+    inside its [unsafe] block, [field!] its field IDENT. *)
+Lemma macros_present :
+  forallb (fun n => existsb (String.eqb n) macro_names) ["unsize"; "__field"; "__unlock"] = true
+  /\ existsb (fun e => String.eqb (fst (fst e)) "unsize#0" && String.eqb (snd e) "ty") unsafe_metavars = true.
+Proof. split; vm_compute; reflexivity. Qed.
+
+Lemma unsize_expr_in_unsafe_fails : metavar_harmless (("unsize#0", "gc"), "expr") = false.
+Proof. vm_compute. reflexivity. Qed.
